@@ -13,8 +13,12 @@
 EXTENDS Naturals, Integers, Sequences, FiniteSets, TLC
 
 CONSTANTS RT, Grace,
-          ImplWsProbeTimeout,   \* BOOLEAN: the probe reads of connect() time out after RT
-                                \* (websocket-client socket timeout) or never (aiohttp)
+          ImplWsProbeTimeout,   \* BOOLEAN: the probe / OPEN reads of connect() time out after RT
+                                \* (both clients; FALSE = AsyncClient before its repair)
+          ImplWsSetTimeout,     \* BOOLEAN: the client sets a socket timeout on the websocket
+                                \* (websocket-client) instead of timing each read (aiohttp)
+          ConnectDisconnects,   \* BOOLEAN: the connect handler calls disconnect()
+          MsgDisconnects,       \* BOOLEAN: the message handler calls disconnect() on message M2
           Deviations, Horizon
 
 NIL == "NIL"
@@ -34,9 +38,10 @@ VARIABLES now,
     ws,     \* websocket connection as the client sees it
     dj,     \* application disconnect() calls blocked joining the read loop
     wj,     \* application wait() calls blocked on the read loop
+    hj,     \* message-handler tasks blocked in disconnect() joining the read loop
     nid     \* request / connection id counter
 
-vars == <<now, c, call, rd, wr, ws, dj, wj, nid>>
+vars == <<now, c, call, rd, wr, ws, dj, wj, hj, nid>>
 
 NoCall == [stage |-> "none", id |-> 0, dl |-> None, trs |-> "none", upg |-> FALSE]
 NoTask == [st |-> "none", id |-> 0, dl |-> None]
@@ -47,7 +52,7 @@ InitC == [st |-> "disconnected", sid |-> 0, tr |-> "none", ups |-> FALSE, pi |->
           hq |-> <<>>, tx |-> <<>>, rx |-> <<>>, nconn |-> 0, dev |-> {}]
 
 Init == /\ now = 0 /\ c = InitC /\ call = NoCall /\ rd = NoTask /\ wr = NoTask /\ ws = NoWs
-        /\ dj = 0 /\ wj = 0 /\ nid = 0
+        /\ dj = 0 /\ wj = 0 /\ hj = 0 /\ nid = 0
 
 Out(cc, o) == [cc EXCEPT !.out = Append(@, o)]
 Event(cc, e) == Out([cc EXCEPT !.ev = Append(@, e)], [k |-> "ev", e |-> e])
@@ -70,6 +75,16 @@ DisconnectAbort(cc, reason) ==
              c3 == IF c2.tr = "websocket" THEN WsCloseOut(c2, ws) ELSE c2
          IN Reset([c3 EXCEPT !.st = "disconnected", !.reg = FALSE])
     ELSE Reset(cc)
+
+\* disconnect() up to the point where it would wait for the read loop
+DiscStart(cc, w) ==
+    LET c1 == [SendPacket(cc, "CLOSE") EXCEPT !.q = Append(@, NIL), !.st = "disconnecting"]
+        c2 == Event(c1, "disc:client")
+    IN IF c2.tr = "websocket" THEN WsCloseOut(c2, w) ELSE c2
+DiscFinish(cc) == Reset([cc EXCEPT !.st = "disconnected", !.reg = FALSE])
+\* disconnect() called from the connect handler (no read loop yet: nothing to wait for)
+HandlerDisconnect(cc, w) ==
+    IF cc.st = "connected" THEN DiscFinish(DiscStart(cc, w)) ELSE Reset(cc)
 
 ClosesWs(cc, reason) == cc.st = "connected" /\ cc.tr = "websocket"
 
@@ -113,7 +128,7 @@ Connect(trs) ==
               /\ call' = [stage |-> "wsconn", id |-> 0, dl |-> now + RT, trs |-> trs, upg |-> FALSE]
               /\ ws' = [st |-> "connecting", inq |-> <<>>, to |-> None, id |-> c0.nconn + 1]
               /\ UNCHANGED nid
-    /\ UNCHANGED <<now, rd, wr, dj, wj>>
+    /\ UNCHANGED <<now, rd, wr, dj, wj, hj>>
 
 \* OPEN tokens: "OPEN1" (websocket upgrade offered) / "OPEN0"; the announced timing travels
 \* beside the token
@@ -129,6 +144,7 @@ ConnectReply(id, status, pk, raw, pi, pt) ==
     /\ call.stage = "get" /\ call.id = id
     /\ LET c0 == EnvStart(c)
        IN IF status < 200 \/ status >= 300 \/ raw \in {"garbage", "notutf8", "toomany", "json"}
+             \/ Len(pk) > 16      \* more packets than a payload may carry: refused as a whole
              \/ (raw = "none" /\ pk # <<>> /\ ~IsOpen(pk[1]) /\ pk[1] # "OPENbad") THEN
               \* refused / not an Engine.IO answer: ConnectionError, client stays disconnected
               /\ c' = Ret(Reset(c0), "connect", "ConnectionError")
@@ -148,7 +164,8 @@ ConnectReply(id, status, pk, raw, pi, pt) ==
               LET ups == OpenUps(pk[1])
                   c1 == [c0 EXCEPT !.sid = 1, !.ups = ups, !.pi = pi, !.pt = pt, !.tr = "polling",
                                    !.st = "connected", !.reg = TRUE]
-                  c2 == Event(c1, "connect")
+                  c2a == Event(c1, "connect")
+                  c2 == IF ConnectDisconnects THEN HandlerDisconnect(c2a, ws) ELSE c2a
                   c3 == ReceiveAll(c2, Tail(pk))
               IN IF ups /\ call.trs = "both" /\ ("ReconnectAfterClose" \in Deviations \/ c3.st = "connected")
                  THEN /\ c' = WsConn([c3 EXCEPT !.nconn = @ + 1], c3.nconn + 1, RT)
@@ -160,14 +177,14 @@ ConnectReply(id, status, pk, raw, pi, pt) ==
                       /\ rd' = [st |-> "new", id |-> 0, dl |-> None]
                       /\ wr' = [st |-> "new", id |-> 0, dl |-> None]
                       /\ UNCHANGED ws
-    /\ UNCHANGED <<now, dj, wj, nid>>
+    /\ UNCHANGED <<now, dj, wj, hj, nid>>
 
 \* the initial GET fails at connection level or times out
 ConnectFail(id) ==
     /\ call.stage = "get" /\ call.id = id
     /\ c' = Ret(Reset(EnvStart(c)), "connect", "ConnectionError")
     /\ call' = NoCall
-    /\ UNCHANGED <<now, rd, wr, ws, dj, wj, nid>>
+    /\ UNCHANGED <<now, rd, wr, ws, dj, wj, hj, nid>>
 
 \* websocket connection attempt answered
 WsAccept(ok) ==
@@ -197,9 +214,9 @@ WsAccept(ok) ==
                                       !.dl = IF ImplWsProbeTimeout THEN now + RT ELSE None]
               /\ ws' = [ws EXCEPT !.st = "open"]
               /\ UNCHANGED <<rd, wr>>
-    /\ UNCHANGED <<now, dj, wj, nid>>
+    /\ UNCHANGED <<now, dj, wj, hj, nid>>
 
-WsSetTimeout(cc) == IF ImplWsProbeTimeout
+WsSetTimeout(cc) == IF ImplWsSetTimeout
                     THEN Out(cc, [k |-> "wssettimeout", to |-> cc.pi + cc.pt]) ELSE cc
 
 \* a frame (or the closing of the socket: f = "DROP") during connect()'s own reads
@@ -232,7 +249,9 @@ ConnectFrame ==
                  IF IsOpen(f) THEN
                      LET c1 == [c EXCEPT !.sid = 1, !.ups = OpenUps(f), !.pi = fr.pi, !.pt = fr.pt,
                                          !.tr = "websocket", !.st = "connected", !.reg = TRUE]
-                     IN /\ c' = Ret(StartLoops(WsSetTimeout(Event(c1, "connect")), "ws"),
+                         c2a == Event(c1, "connect")
+                         c2 == IF ConnectDisconnects THEN HandlerDisconnect(c2a, ws) ELSE c2a
+                     IN /\ c' = Ret(StartLoops(WsSetTimeout(c2), "ws"),
                                     "connect", "none")
                         /\ rd' = [st |-> "new", id |-> 1, dl |-> None]
                         /\ wr' = [st |-> "new", id |-> 0, dl |-> None]
@@ -242,7 +261,7 @@ ConnectFrame ==
                                     /\ "ConnectRaisesOtherError" \in Deviations
                                  THEN "OtherError" ELSE "ConnectionError")
                      /\ UNCHANGED <<rd, wr>>
-    /\ UNCHANGED <<now, dj, wj, nid>>
+    /\ UNCHANGED <<now, dj, wj, hj, nid>>
 
 \* connect()'s probe / open read times out (websocket-client only)
 ConnectProbeTimeout ==
@@ -255,7 +274,7 @@ ConnectProbeTimeout ==
        ELSE /\ c' = Ret(c, "connect", "ConnectionError")
             /\ UNCHANGED <<rd, wr>>
     /\ call' = NoCall
-    /\ UNCHANGED <<now, ws, dj, wj, nid>>
+    /\ UNCHANGED <<now, ws, dj, wj, hj, nid>>
 
 \* the websocket connection attempt itself times out
 WsConnTimeout ==
@@ -269,13 +288,13 @@ WsConnTimeout ==
                /\ UNCHANGED <<rd, wr>>
     /\ call' = NoCall
     /\ ws' = [ws EXCEPT !.st = "refused"]
-    /\ UNCHANGED <<now, dj, wj, nid>>
+    /\ UNCHANGED <<now, dj, wj, hj, nid>>
 
 ConnectGetTimeout ==
     /\ call.stage = "get" /\ call.dl <= now
     /\ c' = Ret(Reset(Out(c, [k |-> "reqto", id |-> call.id])), "connect", "ConnectionError")
     /\ call' = NoCall
-    /\ UNCHANGED <<now, rd, wr, ws, dj, wj, nid>>
+    /\ UNCHANGED <<now, rd, wr, ws, dj, wj, hj, nid>>
 
 -----------------------------------------------------------------------------
 (* read loops *)
@@ -313,13 +332,14 @@ ReaderStart ==
                 /\ UNCHANGED nid
            ELSE LET a == AfterLoop(c)
                 IN /\ c' = a.cn /\ rd' = [rd EXCEPT !.st = a.st] /\ UNCHANGED nid
-    /\ UNCHANGED <<now, call, wr, ws, dj, wj>>
+    /\ UNCHANGED <<now, call, wr, ws, dj, wj, hj>>
 
 \* the polling GET is answered
 ReadReply(id, status, pk, raw) ==
     /\ rd.st = "get" /\ rd.id = id
     /\ LET c0 == EnvStart(c)
            bad == status < 200 \/ status >= 300 \/ raw \in {"garbage", "notutf8", "toomany", "json"}
+                  \/ Len(pk) > 16
        IN IF bad THEN
               LET a == AfterLoop(ReaderLeaves(c0, TRUE))
               IN /\ c' = a.cn /\ rd' = [rd EXCEPT !.st = a.st, !.dl = None] /\ UNCHANGED <<nid, ws>>
@@ -334,7 +354,7 @@ ReadReply(id, status, pk, raw) ==
                  ELSE LET a == AfterLoop(c1)
                       IN /\ c' = a.cn /\ rd' = [rd EXCEPT !.st = a.st, !.dl = None]
                          /\ UNCHANGED <<nid, ws>>
-    /\ UNCHANGED <<now, call, wr, dj, wj>>
+    /\ UNCHANGED <<now, call, wr, dj, wj, hj>>
 
 ReadFail(id, timeout) ==
     /\ rd.st = "get" /\ rd.id = id
@@ -342,7 +362,7 @@ ReadFail(id, timeout) ==
     /\ LET c0 == IF timeout THEN Out(c, [k |-> "reqto", id |-> id]) ELSE EnvStart(c)
            a == AfterLoop(ReaderLeaves(c0, TRUE))
        IN /\ c' = a.cn /\ rd' = [rd EXCEPT !.st = a.st, !.dl = None]
-    /\ UNCHANGED <<now, call, wr, ws, dj, wj, nid>>
+    /\ UNCHANGED <<now, call, wr, ws, dj, wj, hj, nid>>
 
 \* websocket read loop: a frame, or the socket closed ("DROP"), or silence
 ReadFrame ==
@@ -365,13 +385,13 @@ ReadFrame ==
                     ELSE LET a == AfterLoop(c1)
                          IN /\ c' = a.cn /\ rd' = [rd EXCEPT !.st = a.st, !.dl = None]
                             /\ ws' = w1
-    /\ UNCHANGED <<now, call, wr, dj, wj, nid>>
+    /\ UNCHANGED <<now, call, wr, dj, wj, hj, nid>>
 
 ReadSilence ==
     /\ rd.st = "recv" /\ rd.dl <= now /\ ws.inq = <<>>
     /\ LET a == AfterLoop(ReaderLeaves(c, TRUE))
        IN /\ c' = a.cn /\ rd' = [rd EXCEPT !.st = a.st, !.dl = None]
-    /\ UNCHANGED <<now, call, wr, ws, dj, wj, nid>>
+    /\ UNCHANGED <<now, call, wr, ws, dj, wj, hj, nid>>
 
 \* the loop condition is re-evaluated after a state change made by another task while the
 \* reader was blocked in recv (a disconnect() closes the socket, which delivers DROP)
@@ -380,7 +400,7 @@ ReaderJoined ==
     /\ rd.st = "joinw" /\ wr.st \in {"done", "none"}
     /\ c' = ReaderEpilogue(c)
     /\ rd' = [rd EXCEPT !.st = "done"]
-    /\ UNCHANGED <<now, call, wr, ws, dj, wj, nid>>
+    /\ UNCHANGED <<now, call, wr, ws, dj, wj, hj, nid>>
 
 -----------------------------------------------------------------------------
 (* write loop *)
@@ -419,13 +439,13 @@ WriterRun ==
        IN /\ c' = r.cn
           /\ wr' = [st |-> r.st, id |-> r.id, dl |-> r.dl]
           /\ nid' = nid + r.nid
-    /\ UNCHANGED <<now, call, rd, ws, dj, wj>>
+    /\ UNCHANGED <<now, call, rd, ws, dj, wj, hj>>
 
 WriterIdleTimeout ==
     /\ wr.st = "qwait" /\ wr.dl <= now
     /\ c' = c
     /\ wr' = [wr EXCEPT !.st = "done", !.dl = None]
-    /\ UNCHANGED <<now, call, rd, ws, dj, wj, nid>>
+    /\ UNCHANGED <<now, call, rd, ws, dj, wj, hj, nid>>
 
 PostReply(id, status) ==
     /\ wr.st = "post" /\ wr.id = id
@@ -438,7 +458,7 @@ PostReply(id, status) ==
                IN /\ c' = r.cn
                   /\ wr' = [st |-> r.st, id |-> r.id, dl |-> r.dl]
                   /\ nid' = nid + r.nid
-    /\ UNCHANGED <<now, call, rd, ws, dj, wj>>
+    /\ UNCHANGED <<now, call, rd, ws, dj, wj, hj>>
 
 \* the POST fails at connection level or times out: the connection is lost
 PostFail(id, timeout) ==
@@ -449,19 +469,35 @@ PostFail(id, timeout) ==
           THEN c' = [c0 EXCEPT !.dev = @ \cup {"PostFailureSilent"}]
           ELSE c' = [c0 EXCEPT !.wlt = "cleared"]
     /\ wr' = [st |-> "done", id |-> 0, dl |-> None]
-    /\ UNCHANGED <<now, call, rd, ws, dj, wj, nid>>
+    /\ UNCHANGED <<now, call, rd, ws, dj, wj, hj, nid>>
 
 -----------------------------------------------------------------------------
 (* message handlers, application calls *)
 
 RunHandler ==
     /\ c.hq # <<>>
-    /\ c' = Event([c EXCEPT !.hq = Tail(@)], "msg:" \o Head(c.hq))
+    /\ LET c1 == Event([c EXCEPT !.hq = Tail(@)], "msg:" \o Head(c.hq))
+       IN IF MsgDisconnects /\ Head(c.hq) = "M2" THEN
+              IF c1.st = "connected" THEN
+                  LET c2 == DiscStart(c1, ws)
+                      w2 == IF c1.tr = "websocket" /\ ws.st = "open"
+                            THEN [WsClosed(ws) EXCEPT !.inq = @ \o <<DROP>>] ELSE ws
+                  IN IF rd.st \in {"done", "none"}
+                     THEN /\ c' = DiscFinish(c2) /\ ws' = w2 /\ UNCHANGED hj
+                     ELSE /\ c' = c2 /\ ws' = w2 /\ hj' = hj + 1
+              ELSE /\ c' = Reset(c1) /\ UNCHANGED <<ws, hj>>
+          ELSE /\ c' = c1 /\ UNCHANGED <<ws, hj>>
+    /\ UNCHANGED <<now, call, rd, wr, dj, wj, nid>>
+
+HandlerJoined ==
+    /\ hj > 0 /\ rd.st = "done"
+    /\ c' = DiscFinish(c)
+    /\ hj' = hj - 1
     /\ UNCHANGED <<now, call, rd, wr, ws, dj, wj, nid>>
 
 Send(tok) ==
     /\ c' = Ret(SendPacket(EnvStart(c), tok), "send", "none")
-    /\ UNCHANGED <<now, call, rd, wr, ws, dj, wj, nid>>
+    /\ UNCHANGED <<now, call, rd, wr, ws, dj, wj, hj, nid>>
 
 Disconnect ==
     /\ LET c0 == EnvStart(c)
@@ -481,39 +517,39 @@ Disconnect ==
                       /\ dj' = dj + 1
           ELSE /\ c' = Ret(Reset(c0), "disconnect", "none")
                /\ UNCHANGED <<ws, dj>>
-    /\ UNCHANGED <<now, call, rd, wr, wj, nid>>
+    /\ UNCHANGED <<now, call, rd, wr, wj, hj, nid>>
 
 DisconnectJoined ==
     /\ dj > 0 /\ rd.st = "done"
     /\ c' = Ret(Reset([c EXCEPT !.st = "disconnected", !.reg = FALSE]), "disconnect", "none")
     /\ dj' = dj - 1
-    /\ UNCHANGED <<now, call, rd, wr, ws, wj, nid>>
+    /\ UNCHANGED <<now, call, rd, wr, ws, wj, hj, nid>>
 
 \* wait(): returns when the read loop is over
 WaitCall ==
     /\ IF rd.st \in {"done", "none"}
        THEN /\ c' = Ret(EnvStart(c), "wait", "none") /\ UNCHANGED wj
        ELSE /\ c' = EnvStart(c) /\ wj' = wj + 1
-    /\ UNCHANGED <<now, call, rd, wr, ws, dj, nid>>
+    /\ UNCHANGED <<now, call, rd, wr, ws, dj, hj, nid>>
 
 WaitJoined ==
     /\ wj > 0 /\ rd.st = "done"
     /\ c' = Ret(c, "wait", "none")
     /\ wj' = wj - 1
-    /\ UNCHANGED <<now, call, rd, wr, ws, dj, nid>>
+    /\ UNCHANGED <<now, call, rd, wr, ws, dj, hj, nid>>
 
 \* frames delivered by the peer / the peer closes the socket
 WsDeliver(f) ==
     /\ ws.st = "open"
     /\ ws' = [ws EXCEPT !.inq = Append(@, f)]
     /\ c' = EnvStart(c)
-    /\ UNCHANGED <<now, call, rd, wr, dj, wj, nid>>
+    /\ UNCHANGED <<now, call, rd, wr, dj, wj, hj, nid>>
 
 WsPeerClose ==
     /\ ws.st = "open"
     /\ ws' = [ws EXCEPT !.st = "closed", !.inq = Append(@, DROP)]
     /\ c' = EnvStart(c)
-    /\ UNCHANGED <<now, call, rd, wr, dj, wj, nid>>
+    /\ UNCHANGED <<now, call, rd, wr, dj, wj, hj, nid>>
 
 -----------------------------------------------------------------------------
 Internal ==
@@ -522,7 +558,7 @@ Internal ==
     \/ (rd.st = "get" /\ ReadFail(rd.id, TRUE))
     \/ WriterRun \/ WriterIdleTimeout
     \/ (wr.st = "post" /\ PostFail(wr.id, TRUE))
-    \/ RunHandler \/ DisconnectJoined \/ WaitJoined
+    \/ RunHandler \/ DisconnectJoined \/ WaitJoined \/ HandlerJoined
 
 Deadlines ==
     (IF call.stage # "none" /\ call.dl # None THEN {call.dl} ELSE {})
@@ -537,5 +573,5 @@ TickTo(t) ==
     /\ \A d \in Deadlines : d > now => t <= d
     /\ now' = t
     /\ c' = EnvStart(c)
-    /\ UNCHANGED <<call, rd, wr, ws, dj, wj, nid>>
+    /\ UNCHANGED <<call, rd, wr, ws, dj, wj, hj, nid>>
 =============================================================================
